@@ -100,8 +100,8 @@ inductive Outbound.Slot (o : Outbound) : Outbound.Step → Prop
       (hc : o.control = ⟨a, st⟩ :: rest) (hrest : ∀ x ∈ rest, x.state = .write 0)
       (hrel : ∀ e ∈ o.release, e.state.isInProgress = false)
       (hret : ∀ e ∈ o.retained, e.state.isInProgress = false) : Slot o (.control a st)
-  | release (pre : List PendingRelease) (id rc : Nat) (st : SendState) (post : List PendingRelease)
-      (hr : o.release = pre ++ ⟨id, rc, st⟩ :: post)
+  | release (pre : List PendingRelease) (id rc : Nat) (st : SendState) (rs ps : Nat) (post : List PendingRelease)
+      (hr : o.release = pre ++ ⟨id, rc, st, rs, ps⟩ :: post)
       (hpre : ∀ x ∈ pre, x.id ≠ id ∧ x.state.isInProgress = false)
       (hpost : ∀ x ∈ post, x.state.isInProgress = false)
       (hctl : ∀ e ∈ o.control, e.state = .write 0)
@@ -148,8 +148,8 @@ theorem Outbound.Slot.setWritten {o : Outbound} {step : Outbound.Step} (h : o.Sl
   | control a st rest hc hrest hrel hret =>
     refine Slot.control a _ rest ?_ hrest hrel hret
     simp [Outbound.setWritten, Outbound.Step.flushed, setControlWritten, hc, modifyFirst]
-  | release pre id rc st post hr hpre hpost hctl hret hsent =>
-    refine Slot.release pre id rc _ post ?_ hpre hpost hctl hret hsent
+  | release pre id rc st rs ps post hr hpre hpost hctl hret hsent =>
+    refine Slot.release pre id rc _ rs ps post ?_ hpre hpost hctl hret hsent
     simp only [Outbound.setWritten, Outbound.Step.flushed, setReleaseWritten, hr]
     rw [modifyFirst_hit _ _ pre _ post (fun x hx => by simp [(hpre x hx).1]) (by simp)]
   | retained pre e post hr hpre hpost hctl hrel hsent =>
@@ -171,7 +171,7 @@ theorem Outbound.Slot.completeFlush {o : Outbound} {step : Outbound.Step} (h : o
     rcases List.mem_cons.mp he.1 with rfl | hm
     · simp at he
     · exact hrest e hm
-  | release pre id rc st post hr hpre hpost hctl hret =>
+  | release pre id rc st rs ps post hr hpre hpost hctl hret =>
     refine ⟨hctl, ?_, hret⟩
     intro e he
     simp only [Outbound.completeFlush, Outbound.Step.flushed, flushRelease, hr] at he
@@ -203,7 +203,7 @@ theorem Outbound.Slot.quiet_of_fresh {o : Outbound} {step : Outbound.Step} (h : 
     rcases List.mem_cons.mp he with rfl | hm
     · exact hs
     · exact hrest e hm
-  | release pre id rc st post hr hpre hpost hctl hret =>
+  | release pre id rc st rs ps post hr hpre hpost hctl hret =>
     simp only [Outbound.Step.state] at hs
     refine ⟨hctl, ?_, hret⟩
     intro e he
@@ -253,8 +253,8 @@ theorem Outbound.Slot.queueControl {o o' : Outbound} {a : ControlAction} {step :
     | control a' st rest hc hrest hrel hret =>
       refine Slot.control a' st (rest ++ [{ action := a, state := .write 0 }]) ?_ (happ rest hrest) hrel hret
       simp [hc]
-    | release pre id rc st post hr hpre hpost hctl hret hsent =>
-      exact Slot.release pre id rc st post hr hpre hpost (happ _ hctl) hret hsent
+    | release pre id rc st rs ps post hr hpre hpost hctl hret hsent =>
+      exact Slot.release pre id rc st rs ps post hr hpre hpost (happ _ hctl) hret hsent
     | retained pre e post hr hpre hpost hctl hrel hsent =>
       exact Slot.retained pre e post hr hpre hpost (happ _ hctl) hrel hsent
 
@@ -286,7 +286,7 @@ theorem Outbound.Slot.nextStep {o : Outbound} {step : Outbound.Step} (h : o.Slot
   | control a st rest hc hrest hrel hret =>
     simp only [Outbound.Step.state] at hp
     simp [hc, matchesPriority_true, hp]
-  | release pre id rc st post hr hpre hpost hctl hret =>
+  | release pre id rc st rs ps post hr hpre hpost hctl hret =>
     simp only [Outbound.Step.state] at hp
     rw [hfresh _ hctl]
     simp only []
@@ -342,7 +342,7 @@ theorem Outbound.Quiet.nextStep {o : Outbound} {step : Outbound.Step} (h : o.Qui
     refine ⟨?_, hfr⟩
     obtain ⟨_, pre, post, hl, hnf⟩ := List.find?_eq_some_iff_append.mp hf
     have hne := nodup_pre_ne (fun (x : PendingRelease) => x.id) pre e post (by rw [← hl]; exact hnd.2.1)
-    exact Slot.release pre e.id e.rc e.state post hl
+    exact Slot.release pre e.id e.rc e.state e.rser e.pser post hl
       (fun x hx => ⟨hne x hx, h.release x (by rw [hl]; simp [hx])⟩)
       (fun x hx => h.release x (by rw [hl]; simp [hx])) h.control h.retained
       (fun x hx => sent_of_neither _ (by have := hnf x hx; rw [matchesPriority_false] at this; simpa using this)
@@ -501,7 +501,7 @@ theorem Quiet_ackRelease {o : Outbound} (id : Nat) (h : o.Quiet) : (o.ackRelease
   · exact ⟨h.control, fun e he => h.release e ((removeFirst_sublist _ _).subset he), h.retained⟩
   · exact h
 
-theorem Quiet_queueRelease {o o' : Outbound} {id rc : Nat} (h : o.Quiet) (hq : o.queueRelease id rc = some o') : o'.Quiet := by
+theorem Quiet_queueRelease {o o' : Outbound} {id rc ps : Nat} (h : o.Quiet) (hq : o.queueRelease id rc ps = some o') : o'.Quiet := by
   unfold Outbound.queueRelease at hq
   split at hq
   · simp at hq
